@@ -201,3 +201,36 @@ class Report:
         }
         with open(os.path.join(EVDIR, self.pid + ".json"), "w") as f:
             json.dump(ev, f, indent=1)
+
+
+class Renamed:
+    """forwards to a Report with rule ids renamed: a rule of a sibling property that is a necessary condition of this one is run
+    here under this property's own id (the statement registered by the sibling is replaced by `statements`)"""
+    def __init__(self, rep, mapping, statements=None):
+        self._rep, self._map, self._st = rep, mapping, statements or {}
+
+    def _r(self, r):
+        return self._map.get(r, r)
+
+    def rule(self, rid, statement):
+        rid2 = self._r(rid)
+        return self._rep.rule(rid2, self._st.get(rid2, statement))
+
+    def add(self, rule, *a, **k):
+        return self._rep.add(self._r(rule), *a, **k)
+
+    def holds(self, rule, *a, **k):
+        return self._rep.holds(self._r(rule), *a, **k)
+
+    def violates(self, rule, *a, **k):
+        return self._rep.violates(self._r(rule), *a, **k)
+
+    def inconclusive(self, rule, *a, **k):
+        return self._rep.inconclusive(self._r(rule), *a, **k)
+
+    def counts_as(self, rule, n):
+        return self._rep.counts_as(self._r(rule), n)
+
+    def __getattr__(self, name):
+        return getattr(self._rep, name)
+
